@@ -195,6 +195,13 @@ pub fn engine_positions(seed: u64, shard: u64, nshards: u64, n_random: u64, want
             out.push(EnginePos { label: "corpus", pos: p.clone(), history: vec![] });
         }
     }
+    // hopeless positions: every legal move allows an immediate mate / stalemate
+    {
+        let mut rng = Rng::new(mix3(seed, shard, 0x40BE));
+        for (label, p) in workload::hopeless_positions(&mut rng, (n_random as usize) * 400, (n_random as usize / 4).max(6)) {
+            out.push(EnginePos { label, pos: p, history: vec![] });
+        }
+    }
     let themes = [Theme::Sparse, Theme::Sparse, Theme::MatingNet, Theme::MatingNet, Theme::Promo, Theme::PawnRace, Theme::Mid, Theme::Castle, Theme::Dense];
     for i in 0..n_random {
         let mut rng = Rng::new(mix3(seed, shard, 0xE9610000 + i));
